@@ -469,3 +469,162 @@ pub fn input_mode(ig: &IGrammar, heights: &[usize], tape: &[u16], sentences_only
     let seps = (0..=toks.len()).map(|_| if t.next(3) == 0 { t.next(SEPS.len()) as u8 } else { 0 }).collect();
     Input { toks, seps }
 }
+
+/// Decorates a grammar with everything PAR can express: AST control annotations, user types,
+/// declarations, quoting styles, lookaheads, scanner states with terminal membership, %skip / %on
+/// through primary non-terminals, comment declarations and scanner flags.
+pub fn annotate(g: &mut Grammar, t: &mut Tape) {
+    let member_names = ["lhs", "rhs", "item", "op", "first", "rest", "value_1", "x"];
+    let user_types = ["MyType", "crate::types::Num", "my_mod::Wrapper", "u32Wrapper"];
+    // declarations
+    if t.next(3) == 0 {
+        g.title = Some(["A title", "T", "x y z"][t.next(3)].to_string());
+    }
+    if t.next(3) == 0 {
+        g.comment = Some(["A comment", "c"][t.next(2)].to_string());
+    }
+    if t.next(3) == 0 {
+        g.user_types.push(("Alias".into(), user_types[t.next(user_types.len())].to_string()));
+    }
+    if t.next(4) == 0 {
+        g.t_type = Some(user_types[t.next(user_types.len())].to_string());
+    }
+    let nts = g.nts();
+    if t.next(3) == 0 && nts.len() > 1 {
+        g.nt_types.push((nts[1 + t.next(nts.len() - 1)].clone(), user_types[t.next(user_types.len())].to_string()));
+    }
+    // scanner states
+    let n_states = t.next(3);
+    for i in 0..n_states {
+        let mut sc = ScannerDecl { name: format!("State{i}"), ..Default::default() };
+        sc.auto_newline_off = t.next(4) == 0;
+        sc.auto_ws_off = t.next(4) == 0;
+        sc.allow_unmatched = t.next(3) == 0;
+        if t.next(3) == 0 {
+            sc.line_comments.push(Lit::raw(["#", "--", ";;"][t.next(3)]));
+        }
+        if t.next(3) == 0 {
+            sc.block_comments.push((Lit::raw(["(*", "{-"][t.next(2)]), Lit::raw(["*)", "-}"][t.next(2)])));
+        }
+        g.scanners.push(sc);
+    }
+    g.initial.auto_newline_off = t.next(6) == 0;
+    g.initial.auto_ws_off = t.next(6) == 0;
+    g.initial.allow_unmatched = t.next(3) == 0;
+    let state_names: Vec<String> = std::iter::once("INITIAL".to_string()).chain(g.scanners.iter().map(|s| s.name.clone())).collect();
+    // a primary non-terminal for %on / %skip
+    if t.next(2) == 0 {
+        g.prods.push(Prod { lhs: "Prim".into(), alts: vec![vec![Factor::t("prim")]] });
+        // make it reachable: append to the first alternative of the start symbol inside an option
+        let start = g.start.clone();
+        if let Some(p) = g.prods.iter_mut().find(|p| p.lhs == start) {
+            p.alts[0].push(Factor::Opt(vec![vec![Factor::n("Prim")]]));
+        }
+        if !g.scanners.is_empty() && t.next(2) == 0 {
+            let target = state_names[t.next(state_names.len())].clone();
+            let sw = match t.next(3) {
+                0 => Switch::Enter(target),
+                1 => Switch::Push(target),
+                _ => Switch::Pop,
+            };
+            g.initial.on.push((vec!["Prim".into()], sw));
+        }
+    }
+    if t.next(3) == 0 {
+        g.prods.push(Prod { lhs: "Skp".into(), alts: vec![vec![Factor::t("skipme")]] });
+        g.initial.skip.push("Skp".into());
+    }
+    // symbol annotations
+    fn walk(a: &mut Alts, t: &mut Tape, member_names: &[&str], user_types: &[&str], state_names: &[String], top: bool) {
+        for alt in a.iter_mut() {
+            for f in alt.iter_mut() {
+                match f {
+                    Factor::T { term, states, ann } => {
+                        match t.next(8) {
+                            0 => ann.clip = true,
+                            1 => ann.member = Some(member_names[t.next(member_names.len())].to_string()),
+                            2 => ann.utype = Some(user_types[t.next(user_types.len())].to_string()),
+                            3 => {
+                                ann.member = Some(member_names[t.next(member_names.len())].to_string());
+                                ann.utype = Some("Alias".to_string());
+                            }
+                            _ => {}
+                        }
+                        if t.next(5) == 0 {
+                            term.lit.quote = Quote::Str;
+                            term.lit.text = regex::escape(&term.lit.text);
+                        } else if t.next(5) == 0 {
+                            term.lit.quote = Quote::Rx;
+                            term.lit.text = regex::escape(&term.lit.text).replace('/', "\\/");
+                        }
+                        if t.next(8) == 0 {
+                            let q = [Quote::Raw, Quote::Str, Quote::Rx][t.next(3)];
+                            term.lookahead = Some((t.next(2) == 0, Lit { text: ["x", "ab", "q"][t.next(3)].to_string(), quote: q }));
+                        }
+                        if state_names.len() > 1 && t.next(4) == 0 {
+                            let mut s: Vec<String> = state_names.iter().filter(|_| t.next(2) == 0).cloned().collect();
+                            if s.is_empty() {
+                                s.push(state_names[t.next(state_names.len())].clone());
+                            }
+                            *states = s;
+                        }
+                    }
+                    Factor::N { ann, .. } => match t.next(8) {
+                        0 => ann.clip = true,
+                        1 => ann.member = Some(member_names[t.next(member_names.len())].to_string()),
+                        2 => ann.utype = Some(user_types[t.next(user_types.len())].to_string()),
+                        _ => {}
+                    },
+                    Factor::Group(x) | Factor::Opt(x) | Factor::Rep(x) => walk(x, t, member_names, user_types, state_names, false),
+                }
+            }
+        }
+        let _ = top;
+    }
+    for p in g.prods.iter_mut() {
+        if p.lhs == "Prim" || p.lhs == "Skp" {
+            continue;
+        }
+        walk(&mut p.alts, t, &member_names, &user_types, &state_names, true);
+    }
+    // every non-initial state needs at least one terminal (parol rejects empty states)
+    for sn in state_names.iter().skip(1) {
+        let used = {
+            fn any_state(a: &Alts, sn: &str) -> bool {
+                a.iter().flatten().any(|f| match f {
+                    Factor::T { states, .. } => states.iter().any(|s| s == sn),
+                    Factor::Group(x) | Factor::Opt(x) | Factor::Rep(x) => any_state(x, sn),
+                    _ => false,
+                })
+            }
+            g.prods.iter().any(|p| any_state(&p.alts, sn))
+        };
+        if !used {
+            fn first_t<'a>(a: &'a mut Alts) -> Option<&'a mut Vec<String>> {
+                for alt in a.iter_mut() {
+                    for f in alt.iter_mut() {
+                        match f {
+                            Factor::T { states, .. } => return Some(states),
+                            Factor::Group(x) | Factor::Opt(x) | Factor::Rep(x) => {
+                                if let Some(s) = first_t(x) {
+                                    return Some(s);
+                                }
+                            }
+                            _ => {}
+                        }
+                    }
+                }
+                None
+            }
+            for p in g.prods.iter_mut() {
+                if let Some(states) = first_t(&mut p.alts) {
+                    if states.is_empty() {
+                        states.push("INITIAL".into());
+                    }
+                    states.push(sn.clone());
+                    break;
+                }
+            }
+        }
+    }
+}
